@@ -20,7 +20,7 @@ for pid in ids:
 
 You have your own scratch git worktree of the repository at `{D}/wt` (a Rust crate; HCTL model checker for partially
 specified Boolean networks). Work ONLY inside `{D}/` . Do not read or write `/repo` or `/verif`.
-Use `export CARGO_TARGET_DIR={D}/target CARGO_NET_OFFLINE=true RUST_BACKTRACE=0` for every cargo command (no network is available; always pass `--offline`).
+Use `export CARGO_TARGET_DIR={D}/target CARGO_NET_OFFLINE=true RUST_BACKTRACE=0 CARGO_INCREMENTAL=0 CARGO_PROFILE_DEV_DEBUG=0 CARGO_PROFILE_TEST_DEBUG=0` (the disk is shared and small: no debug info, no incremental artefacts; delete `{D}/target` when you are done) for every cargo command (no network is available; always pass `--offline`).
 
 ## The property (a semantic property users rely on)
 
